@@ -186,6 +186,27 @@ def run(ctx):
         okw = any(contains(m[2][0], lambda s, row=row: s == row) for m in muls)
         ctx.ob("T3-representative-row", cr.name, "insert:word-prefix", "ok" if okw else ("violation" if muls else "undecided"),
                "the extended word is the representative of the row whose entry was looked up" if okw else "prefix word does not belong to the row whose table entry was followed: " + show(word, 1)[:80], cr.span_of(bi))
+    # BFS discipline: the row whose entries are followed is taken from the queue, and every newly labelled row is queued
+    pops = [norm(cr.local_origin(t["dest"]["l"]), g) for bi, t in cr.calls("VecDeque::<T, A>::pop_front") if not t["dest"]["p"]]
+    popped = [("field", ("variant", p_, "Some"), "0") for p_ in pops]
+    for bi, t in inserts:
+        key = norm(cr.origin(t["args"][1]), g)
+        gets = [s for s in subterms(key) if isinstance(s, tuple) and s and s[0] == "call" and s[1].endswith("CosetTable::get") and s[2][0] == tparam]
+        if not gets:
+            continue
+        row = gets[0][2][1]
+        okrow = row in popped
+        ctx.ob("T3-representative-bfs", cr.name, "row followed = popped row", "ok" if okrow else "violation",
+               "entries are followed only from rows taken out of the work queue (which already have a representative)" if okrow else
+               "the row whose table entries are followed (%s) is not the row popped from the work queue: a row can be expanded before it has a representative (panic on the map lookup) or never" % show(row, 1)[:50], cr.span_of(bi))
+        lp = None
+        for h_, blocks in natural_loops(cr):
+            if bi in blocks:
+                lp = (h_, blocks)
+        pbs = [pb for pb, t2 in cr.calls("VecDeque::<T, A>::push_back") if norm(cr.origin(t2["args"][1]), g) == key]
+        okq = bool(pbs) and lp is not None and any(must_pass_through(cr, bi, pb, lp[0]) for pb in pbs)
+        ctx.ob("T3-representative-bfs", cr.name, "insert -> push_back(k)", "ok" if okq else "violation",
+               "every newly labelled row is queued" if okq else "a newly labelled row is not (always) put on the work queue: rows reachable only through it never get a representative", cr.span_of(bi))
     # seed = base row
     seed_ok = False
     for bi, t in cr.calls("convert::From::from"):
